@@ -39,7 +39,8 @@ Verdicts ==
      shareConsistency |-> ShareConsistency, honestInQual |-> HonestInQual]
 
 Emit ==
-    Done => CSVWrite("%1$s", <<ToJson([n |-> N, t |-> T, corrupt |-> corrupt, k |-> K - budget,
+    Done => CSVWrite("%1$s", <<ToJson([n |-> N, t |-> T, corrupt |-> corrupt, k |-> K - budget, class |-> cls.name,
+                                        fixed |-> fixes # {},
                                         steps |-> hist, spec |-> Verdicts])>>,
                      "behaviours.ndjson")
 =============================================================================
